@@ -399,6 +399,15 @@ func (m *M) Decide(c *smt.Term) bool {
 		}
 		return d == 1
 	}
+	// syntactic lookup: the same atom was decided (or assumed) earlier on this path
+	if v, ok := m.knownValue(c); ok {
+		if v {
+			st.decisions = append(st.decisions, 1)
+		} else {
+			st.decisions = append(st.decisions, 0)
+		}
+		return v
+	}
 	tOK := m.feasible(c)
 	fOK := true
 	if tOK {
@@ -428,14 +437,41 @@ func (m *M) Decide(c *smt.Term) bool {
 	}
 	if tOK {
 		st.decisions = append(st.decisions, 1)
+		st.Implied = append(st.Implied, c)
 		return true
 	}
 	st.decisions = append(st.decisions, 0)
+	st.Implied = append(st.Implied, smt.Not(c))
 	return false
 }
 
+// knownValue: is c (or its negation) syntactically one of the path-condition conjuncts or implied facts?
+func (m *M) knownValue(c *smt.Term) (bool, bool) {
+	base, pol := c, true
+	if c.Op == "not" {
+		base, pol = c.Args[0], false
+	}
+	k := base.Key()
+	look := func(list []*smt.Term) (bool, bool) {
+		for i := len(list) - 1; i >= 0; i-- {
+			x, xp := list[i], true
+			if x.Op == "not" {
+				x, xp = x.Args[0], false
+			}
+			if x.Key() == k {
+				return xp == pol, true
+			}
+		}
+		return false, false
+	}
+	if v, ok := look(m.st.PC); ok {
+		return v, true
+	}
+	return look(m.st.Implied)
+}
+
 func (m *M) feasible(c *smt.Term) bool {
-	as := append(append([]*smt.Term(nil), m.st.PC...), c)
+	as := append(sliceFor(m.st.PC, c), c)
 	r, _, _ := m.w.solver.Check(as, nil)
 	return r != smt.Unsat
 }
@@ -896,20 +932,12 @@ func (m *M) indexAddr(x Value, idx *smt.Term, ity types.Type) Value {
 
 func (m *M) strIndex(s StrV, idx *smt.Term, ity types.Type) Value {
 	i64 := m.toInt64(idx, ity)
-	if s.IsB || s.IsConst() {
-		bs := s.Bytes
-		if !s.IsB {
-			bs = constToBytes(s).Bytes
-		}
-		i := m.boundedIndex(idx, ity, len(bs))
-		return bs[i]
-	}
 	ln := m.strLen(s)
 	in := smt.And(smt.BVSle(smt.BVC(64, 0), i64), smt.BVSlt(i64, ln))
 	if !m.Decide(in) {
 		panic(execPanic{msg: "runtime error: index out of range (string)"})
 	}
-	return smt.Int2BVSmall(8, smt.StrToCode(smt.StrAt(s.T, smt.BV2IntSigned(i64))))
+	return bByteAt(s, smt.Extract(lw-1, 0, i64))
 }
 
 func (m *M) sliceElems(s SliceV) []Value {
@@ -931,36 +959,19 @@ func (m *M) sliceOp(f *Frame, in *ssa.Slice) Value {
 	lo, hi, max := getIdx(in.Low), getIdx(in.High), getIdx(in.Max)
 	switch xv := x.(type) {
 	case StrV:
-		if xv.IsB || xv.IsConst() {
-			bs := xv.Bytes
-			if !xv.IsB {
-				bs = constToBytes(xv).Bytes
-			}
-			l, h := 0, len(bs)
-			if lo != nil {
-				l = m.chooseIntBounded(lo, 0, len(bs)+1)
-			}
-			if hi != nil {
-				h = m.chooseIntBounded(hi, 0, len(bs)+1)
-			}
-			if l > h {
-				panic(execPanic{msg: "runtime error: slice bounds out of range"})
-			}
-			return strB(bs[l:h])
-		}
-		ln := smt.StrLen(xv.T)
-		var l, h *smt.Term = smt.IntC(0), ln
+		ln := m.strLen(xv)
+		var l, h *smt.Term = smt.BVC(64, 0), ln
 		if lo != nil {
-			l = smt.BV2IntSigned(lo)
+			l = lo
 		}
 		if hi != nil {
-			h = smt.BV2IntSigned(hi)
+			h = hi
 		}
-		ok := smt.And(smt.IntLe(smt.IntC(0), l), smt.IntLe(l, h), smt.IntLe(h, ln))
+		ok := smt.And(smt.BVSle(smt.BVC(64, 0), l), smt.BVSle(l, h), smt.BVSle(h, ln))
 		if !m.Decide(ok) {
 			panic(execPanic{msg: "runtime error: slice bounds out of range (string)"})
 		}
-		return strT(smt.StrSubstr(xv.T, l, smt.IntSub(h, l)))
+		return bSlice(xv, smt.Extract(lw-1, 0, l), smt.Extract(lw-1, 0, h))
 	case SliceV:
 		l, h, c := 0, xv.Len, xv.Cap
 		if lo != nil {
@@ -1108,6 +1119,9 @@ func (m *M) nondetWants() []*smt.Term {
 		if n.T != nil {
 			want = append(want, n.T)
 		}
+		if n.LenT != nil {
+			want = append(want, n.LenT)
+		}
 		want = append(want, n.Bs...)
 	}
 	return want
@@ -1122,6 +1136,13 @@ func (m *M) tableFromModel(model smt.Model) map[string]interface{} {
 			i++
 		}
 		if n.Bs != nil {
+			ln := len(n.Bs)
+			if n.LenT != nil {
+				if model[i] != nil && int(model[i].U) < ln {
+					ln = int(model[i].U)
+				}
+				i++
+			}
 			b := make([]byte, len(n.Bs))
 			for j := range n.Bs {
 				if model[i] != nil {
@@ -1129,7 +1150,7 @@ func (m *M) tableFromModel(model smt.Model) map[string]interface{} {
 				}
 				i++
 			}
-			tab[n.Key] = bytesJSON(b)
+			tab[n.Key] = bytesJSON(b[:ln])
 		}
 		if n.Conc != nil {
 			tab[n.Key] = *n.Conc
@@ -1171,8 +1192,13 @@ func (m *M) obligation(cond *smt.Term, tag string, implicit bool) {
 	if cond.IsTrue() {
 		res = smt.Unsat
 	} else {
-		as := append(append([]*smt.Term(nil), m.st.PC...), smt.Not(cond))
-		res, model, _ = m.w.solver.Check(as, m.nondetWants())
+		nc := smt.Not(cond)
+		res, _, _ = m.w.solver.Check(append(sliceFor(m.st.PC, nc), nc), nil)
+		if res == smt.Sat {
+			// full query for a complete model of all inputs
+			as := append(append([]*smt.Term(nil), m.st.PC...), nc)
+			res, model, _ = m.w.solver.Check(as, m.nondetWants())
+		}
 	}
 	ex.mu.Lock()
 	o := ex.ob(tag)
@@ -1245,7 +1271,8 @@ func (m *M) recordWitness(status string) {
 		case *smt.Term:
 			obsTerms = append(obsTerms, v)
 		case StrV:
-			obsTerms = append(obsTerms, v.Term())
+			obsTerms = append(obsTerms, bLen(v))
+			obsTerms = append(obsTerms, v.Bytes...)
 		default:
 			obsTerms = append(obsTerms, smt.True)
 		}
@@ -1255,8 +1282,30 @@ func (m *M) recordWitness(status string) {
 		return
 	}
 	w := &Witness{Entry: ex.Entry.Name(), Table: m.tableFromModel(model[:nw]), Status: status}
-	for i, o := range m.st.Obs {
-		w.Obs = append(w.Obs, o.Tag+"="+obsString(model[nw+i]))
+	k := nw
+	for _, o := range m.st.Obs {
+		switch v := o.V.(type) {
+		case StrV:
+			ln := 0
+			if model[k] != nil {
+				ln = int(model[k].U)
+			}
+			k++
+			b := make([]byte, len(v.Bytes))
+			for j := range v.Bytes {
+				if model[k] != nil {
+					b[j] = byte(model[k].U)
+				}
+				k++
+			}
+			if ln > len(b) {
+				ln = len(b)
+			}
+			w.Obs = append(w.Obs, o.Tag+"="+fmt.Sprintf("%x", b[:ln]))
+		default:
+			w.Obs = append(w.Obs, o.Tag+"="+obsString(model[k]))
+			k++
+		}
 	}
 	ex.mu.Lock()
 	if len(ex.Witnesses) < ex.Cfg.Witnesses {
